@@ -339,6 +339,7 @@ var theNormaliser *normaliser
 
 func extractMarshal(fset *token.FileSet, fd *ast.FuncDecl, c *jCmd) []jStmt {
 	stmts := theNormaliser.normMarshal(fd, c)
+	theNormaliser.debugDump("Marshal", c, stmts)
 	i := 0
 	expect := func(want string) {
 		if i >= len(stmts) {
@@ -603,6 +604,7 @@ func marshalIf(fset *token.FileSet, n *ast.IfStmt, c *jCmd, vars map[string]*mva
 
 func extractUnmarshal(fset *token.FileSet, fd *ast.FuncDecl, c *jCmd) []jStmt {
 	stmts := theNormaliser.normUnmarshal(fd, c)
+	theNormaliser.debugDump("Unmarshal", c, stmts)
 	if len(fd.Type.Params.List) != 1 || len(fd.Type.Params.List[0].Names) != 1 {
 		fail(fset, fd, "Unmarshal signature")
 	}
